@@ -41,49 +41,6 @@ Proof.
 Qed.
 Print Assumptions C06_logical_unmatched_raises_refuted.
 
-(* resize_blocks, both axes re-indexed, no common row label: the kept column is assigned positionally
-   (values of rows x, y appear under the new labels p, q) -- the specification demands the fill value. *)
-Definition ic_rows_none := mk_icorr false false [] [] 2.          (* index (x,y) -> (p,q): nothing in common *)
-Definition ic_cols_part := mk_icorr true false [1%nat] [0%nat] 2.  (* columns (a,b) -> (b,c): b kept *)
-
-Theorem C06_resize_no_common_rows_refuted :
-  exists t,
-    resize_dom (Some ic_rows_none) (Some ic_cols_part) = false /\
-    vresize t 2 (Some ic_rows_none) (Some ic_cols_part) =
-      Ok [mkb (DFlt 8) true [[VFlt 2 1; VFlt 5 1]]; mkb (DFlt 8) true [[VNaN; VNaN]]] /\
-    map snd (S_resize_cols val VNaN cast_nan resolve_nan (DFlt 8) (vflatten t) 2 (Some ic_rows_none) (Some ic_cols_part)) =
-      [[VNaN; VNaN]; [VNaN; VNaN]].
-Proof.
-  exists [mkb (DInt true 8) true [[VInt 1; VInt 4]]; mkb (DInt true 8) true [[VInt 2; VInt 5]]].
-  split; [reflexivity|]. split; vm_compute; reflexivity.
-Qed.
-Print Assumptions C06_resize_no_common_rows_refuted.
-
-(* ... and there the outcome depends on the block layout: the same two columns held as one 2-D block
-   raise IndexError when the operand has no rows, held as two 1-D blocks they raise ValueError. *)
-Definition ic_rows_none0 := mk_icorr false false [] [] 2.
-Theorem C06_resize_layout_dependent_refuted :
-  exists t1 t2,
-    vflatten t1 = vflatten t2 /\
-    vresize t1 0 (Some ic_rows_none0) (Some ic_cols_part) = Err "IndexError" /\
-    vresize t2 0 (Some ic_rows_none0) (Some ic_cols_part) = Err "ValueError".
-Proof.
-  exists [mkb (DInt true 8) false [[]; []]], [mkb (DInt true 8) true [[]]; mkb (DInt true 8) true [[]]].
-  split; [reflexivity|]. split; vm_compute; reflexivity.
-Qed.
-Print Assumptions C06_resize_layout_dependent_refuted.
-
-(* the mirror image: no common COLUMN label but common rows -> dict(zip(None, None)) -> TypeError *)
-Theorem C06_resize_no_common_columns_refuted :
-  exists ic cc,
-    resize_dom (Some ic) (Some cc) = false /\
-    vresize [] 2 (Some ic) (Some cc) = Err "TypeError".
-Proof.
-  exists (mk_icorr true false [1%nat] [0%nat] 2), (mk_icorr false false [] [] 2).
-  split; vm_compute; reflexivity.
-Qed.
-Print Assumptions C06_resize_no_common_columns_refuted.
-
 (* Frame op Frame with equal labels, layouts [2-D int,int | float] and [int | 2-D float,float]: neither
    block- nor reblock-compatible, so both operands go through TypeBlocks.values (float64) and the
    int64 + int64 column "a" comes back as floats; column by column it would be ints. *)
